@@ -134,7 +134,16 @@ CLAIMED = {
        "above their elements' tags; unions through concat's upper-bound / least laws, transitivity of matches and matches_sound). "
        "The checker model is tied to the implementation by its own stream: 1500 generated fragment programs per quick run over "
        "16 opaque free variables (`p := *(mut T v)`, so nothing folds), half of them ill-typed, a third with match / if-set - same "
-       "verdict and == static type. Outside the fragment (functions, calls, cells, loops, structs, iterators) the "
+       "verdict and == static type. STAGE 3 (Thm/C01Fn) adds FUNCTIONS: the model Model/CheckF (anonymous functions, declarations "
+       "recursive through their own name, calls on operands of a function type with the argument test, `return` with the "
+       "WrongReturn and MissingReturn rules; its own correspondence stream of 1000 programs with functions) and ONE theorem "
+       "for soundness, return typing and progress - eval_outcome / program_outcome: the evaluator ends in a value whose tag "
+       "lies below the static type (hence in the type by contents), a documented error, fuel exhaustion, or a `return` of a "
+       "value of the enclosing function's result type; never `wrong`, never an escaping break / continue. The value invariant "
+       "is an inductive predicate under which a function value is good when the model accepted its body in some static "
+       "environment its captured values respect; calls use contravariance of matches on parameters, the callee environment "
+       "lemma, and the fact that a statement of type `!` yields no value (so a body falls off its end only when () is a result). "
+       "Outside the fragment (cells, loops, structs, iterators) the "
        "evaluator-level statement is NOT proved: for the "
        "running code it is decided by the in-crate monitor (feature `verif`), which judges the result of every executed "
        "instruction (~140k per quick run) against that instruction's own return_type() by tag and by contents, on generated "
@@ -153,7 +162,10 @@ CLAIMED = {
        "`if x: T = e`, match, blocks, `:=` - the reference evaluator never reaches `wrong`, whatever the fuel, the store and the "
        "type-respecting environment (eval_not_wrong / program_not_wrong: mutual induction on fuel, using the evaluator-level "
        "soundness theorem for the operands' kinds and, for match, coverage_sound: an accepted match has an arm whose run-time test "
-       "succeeds on the scrutinee's tag). Progress outside the fragment (functions, cells, loops, iterators, structs) is NOT "
+       "succeeds on the scrutinee's tag). STAGE 3 (Thm/C01Fn, shared with C01) extends this to FUNCTIONS - declarations, recursion, "
+       "calls, `return`: eval_outcome states that a typed program ends in a value of its type, a documented error, fuel "
+       "exhaustion or a well-typed `return`, and NOTHING else: no `wrong` (no panic), no break / continue escaping a function. "
+       "Progress outside the fragment (cells, loops, iterators, structs) is NOT "
        "proved: for the running code it is decided "
        "by panic hook + catch_unwind + worker exit status on generated programs, scoping / control-flow templates, iterator "
        "pipelines, assignment histories and host calls (admissible vectors must run, inadmissible ones must be rejected).",
